@@ -198,6 +198,7 @@ func plan(tier string, seed int64) []run.Batch {
 	add("prod-consts", 0, nil)
 	add("measure-window", 0, nil)
 	add("measure-startup", 0, nil)
+	add("rot-fault", 0, nil)
 	add("startup-long", 0, map[string]string{"populated": "no"})
 	add("startup-long", 0, map[string]string{"populated": "yes"})
 	add("startup-rem", 0, nil)
@@ -268,6 +269,8 @@ func child(b run.Batch, r *ev.Result) {
 		childConsts(b, r)
 	case "prod-conv":
 		childConv(b, r)
+	case "rot-fault":
+		childRotFault(b, r)
 	case "measure-window":
 		childMeasureWindow(b, r)
 	case "measure-startup":
@@ -1661,6 +1664,7 @@ func num(v interface{}) (int64, bool) {
 
 func post(c *ev.Check, outs []*run.Outcome) {
 	c.Require("prod.consts_reported", 1)
+	c.Require("rotfault.rotated", 3)
 	c.Require("prod.current_timeslot_brackets", 100)
 	c.Require("prod.timezones_with_nonzero_offset_at_genesis", 4)
 	c.Require("conv.unix_to_timeslot_calls", 1000000)
